@@ -285,11 +285,9 @@ func (s *Streamsql) EmitSync(data map[string]interface{}) (map[string]interface{
 	return s.stream.ProcessSync(data)
 }
 
-// copyRow returns a shallow copy of a row (nil stays nil).
+// copyRow returns a shallow copy of a row. A nil row becomes an empty one: the schema validator
+// writes declared defaults into the copy, and a write into a nil map panics.
 func copyRow(data map[string]interface{}) map[string]interface{} {
-	if data == nil {
-		return nil
-	}
 	row := make(map[string]interface{}, len(data)+1)
 	for k, v := range data {
 		row[k] = v
